@@ -326,6 +326,43 @@ func shapeFacts(repo string, fset *token.FileSet, files []*ast.File, info *types
 	}
 	o.Shape["goDrainsStop"] = goDrains
 
+	// the clock polls of the search: each of these functions has a loop whose body tests `time.Now().After(<deadline>)`
+	// in an `if` that leaves the loop (the model consults its clock oracle at exactly these places; the deadline
+	// theorems of Props/C13Deadline are about that model)
+	for _, spec := range [][2]string{{"clockPoll_quiescence", "Search.quiescence"}, {"clockPoll_alphaBeta", "Search.alphaBeta"},
+		{"clockPoll_startAlphaBeta", "Search.startAlphaBeta"}, {"clockPoll_deepening", "Search.StartIterativeDeepening"}} {
+		found := false
+		d, ok := fd[spec[1]]
+		if !ok {
+			d, ok = fd[strings.TrimPrefix(spec[1], "Search.")]
+		}
+		if ok && d.Body != nil {
+			ast.Inspect(d.Body, func(n ast.Node) bool {
+				var body *ast.BlockStmt
+				switch l := n.(type) {
+				case *ast.ForStmt:
+					body = l.Body
+				case *ast.RangeStmt:
+					body = l.Body
+				}
+				if body == nil {
+					return true
+				}
+				ast.Inspect(body, func(m ast.Node) bool {
+					if is, ok := m.(*ast.IfStmt); ok {
+						c := exprString(is.Cond)
+						if strings.Contains(c, "time.Now().After(") && !strings.Contains(c, "!time.Now().After(") && strings.Contains(exprString(is.Body), "break") {
+							found = true
+						}
+					}
+					return true
+				})
+				return true
+			})
+		}
+		o.Shape[spec[0]] = found
+	}
+
 	// size of the PV table (array length of Search.bestLineAtDepth) and of each row as allocated
 	if obj := info.Defs; obj != nil {
 		for id, ob := range info.Defs {
